@@ -238,6 +238,14 @@ def skipBlockComment (b : Array UInt8) : Nat → Nat → Outcome Nat
       | _, _ => .panic "index out of bounds"
     else .ok i
 
+/-- "Track bracket depth": new `(depth, max_depth, max_depth_pos)` for byte `c` at index `i`
+(`depth.saturating_sub(1)` is subtraction on `Nat`) -/
+def bracketStep (c : UInt8) (i depth maxDepth maxPos : Nat) : Nat × Nat × Nat :=
+  if isOpen c then
+    if depth + 1 > maxDepth then (depth + 1, depth + 1, i) else (depth + 1, maxDepth, maxPos)
+  else if isClose c then (depth - 1, maxDepth, maxPos)
+  else (depth, maxDepth, maxPos)
+
 /-- the main `while i < len` loop; `.ok (some p)` = rejected at position `p` -/
 def nestLoop (b : Array UInt8) : Nat → Nat → Nat → Nat → Nat → Outcome (Option Nat)
   | 0, _, _, _, _ => .panic "diverged"
@@ -262,11 +270,9 @@ def nestLoop (b : Array UInt8) : Nat → Nat → Nat → Nat → Nat → Outcome
           | .err k => .err k
           | .panic w => .panic w
         else
-          let depth' := if isOpen c then depth + 1 else if isClose c then depth - 1 else depth
-          let maxDepth' := if isOpen c && depth' > maxDepth then depth' else maxDepth
-          let maxPos' := if isOpen c && depth' > maxDepth then i else maxPos
-          if maxDepth' > MAX_NESTING_DEPTH then .ok (some maxPos')
-          else nestLoop b fuel (i + 1) depth' maxDepth' maxPos'
+          let t := bracketStep c i depth maxDepth maxPos
+          if t.2.1 > MAX_NESTING_DEPTH then .ok (some t.2.2)
+          else nestLoop b fuel (i + 1) t.1 t.2.1 t.2.2
     else .ok none
 
 /-- `check_nesting_depth`: `.ok none` accepted, `.ok (some p)` rejected with position `p` -/
@@ -349,7 +355,7 @@ def sourceLocation (source : Text) (origins : List Nat) (pre : List UInt8) (posi
         | some (srcStart, srcLine) =>
           match indentC srcLine with
           | .ok indent =>
-            match backToBoundary srcLine 5 (min (indent + inLine) (byteLen srcLine)) with
+            match backToBoundary srcLine (min (indent + inLine) (byteLen srcLine) + 1) (min (indent + inLine) (byteLen srcLine)) with
             | .ok off =>
               .ok ((fromPosition source (srcStart + off)).1, (fromPosition source (srcStart + off)).2, srcStart + off)
             | .err k => .err k
@@ -391,17 +397,15 @@ def preParse (src : Text) : Outcome Pre :=
         | .err k => .err k
         | .panic w => .panic w
 
-/-- a segment without its final `\n` (a `\r` before it stays: it is a character of the line) -/
-def stripNl (seg : Text) : Line :=
-  match seg.reverse with
-  | '\n' :: r => r.reverse
-  | _ => seg
+/-- lengths (in characters) of the lines of a text; a final `\n` is followed by one more, empty,
+line — that is where an end-of-input position lies. `n` = length of the current line so far. -/
+def lineLensGo : Text → Nat → List Nat
+  | [], n => [n]
+  | c :: cs, n => if c = '\n' then n :: lineLensGo cs 0 else lineLensGo cs (n + 1)
 
-/-- number of characters of line `l` (1-based) of the source, if that line exists; a final `\n`
-is followed by one more (empty) line, which is where an end-of-input position lies -/
+/-- number of characters of line `l` (1-based) of the source, if that line exists -/
 def lineLen (source : Text) (l : Nat) : Option Nat :=
-  let ls := (segments source).map stripNl ++ (if source.getLast? == some '\n' || source.isEmpty then [[]] else [])
-  if l = 0 then none else (ls[l - 1]?).map List.length
+  if l = 0 then none else (lineLensGo source 0)[l - 1]?
 
 /-- "line/column lies within the input": the line exists and the column is on it or just behind it -/
 def locWithin (source : Text) (line col : Nat) : Bool :=
